@@ -102,16 +102,40 @@ end GradRec
 
 namespace SvgObj
 
-/-- `_id_of_target(url)`: `^url[(]#([\w-]+)[)]$` (ASCII word characters) -/
+/-- white space of `\s` (ASCII part) -/
+def isReWs (c : Char) : Bool :=
+  c == ' ' || c == '\t' || c == '\n' || c == '\r' || c == '\x0b' || c == '\x0c' || (c.toNat ≥ 0x1c && c.toNat ≤ 0x1f)
+
+/-- `^\s*url[(]\s*(['"]?)#([^)'"\s]+)\1\s*[)](?:\s.*)?$` with DOTALL: optional white space and matching quotes around the
+    reference, any id without `)`, quotes or white space, an optional fallback after the closing parenthesis -/
 def idOfTarget (url : String) : Except PyErr String :=
-  let cs := url.toList
-  if !("url(#".toList.isPrefixOf cs) then .error .valueError else
-  let body := cs.drop 5
-  match body.reverse with
-  | ')' :: ri =>
-    let inner := ri.reverse
-    if !inner.isEmpty && inner.all (fun c => c.isAlphanum || c == '_' || c == '-') then .ok (String.ofList inner)
-    else .error .valueError
+  let cs := url.toList.dropWhile isReWs
+  if !("url(".toList.isPrefixOf cs) then .error .valueError else
+  let r1 := (cs.drop 4).dropWhile isReWs
+  let (q, r2) : Option Char × List Char := match r1 with
+    | '\'' :: t => (some '\'', t)
+    | '"' :: t => (some '"', t)
+    | _ => (none, r1)
+  match r2 with
+  | '#' :: r3 =>
+    let idc (c : Char) : Bool := !(c == ')' || c == '\'' || c == '"' || isReWs c)
+    let i := r3.takeWhile idc
+    let r4 := r3.dropWhile idc
+    if i.isEmpty then .error .valueError else
+    let r5? : Option (List Char) := match q with
+      | none => some r4
+      | some qc => match r4 with
+        | c :: t => if c == qc then some t else none
+        | [] => none
+    match r5? with
+    | none => .error .valueError
+    | some r5 =>
+      match r5.dropWhile isReWs with
+      | ')' :: r6 =>
+        (match r6 with
+         | [] => .ok (String.ofList i)
+         | c :: _ => if isReWs c then .ok (String.ofList i) else .error .valueError)
+      | _ => .error .valueError
   | _ => .error .valueError
 
 /-- `resolve_url(url, tag)`: exactly one svg element with that id (and tag, unless `*`) -/
